@@ -10,8 +10,10 @@ import (
 	"fmt"
 	"io"
 	"runtime"
+	"runtime/debug"
 	"runtime/metrics"
 	"sort"
+	"sync"
 	"syscall"
 	"time"
 
@@ -147,6 +149,12 @@ func (Engine) Run(c *simkit.Choices, x *simkit.Ctx) *simkit.Violation {
 	}
 	if c.N(250) == 0 {
 		return scaling(c, x, cd, f)
+	}
+	if c.N(1500) == 0 {
+		return memScaling(c, x, cd, f)
+	}
+	if c.N(1000) == 0 {
+		return stackBomb(c, x, cd, f)
 	}
 
 	// hostile inputs derived from this document
@@ -375,6 +383,93 @@ func scaling(c *simkit.Choices, x *simkit.Ctx, cd *common.Codec, f model.Format)
 		Detail: fmt.Sprintf("%s in %d-byte chunks: %d bytes take %v of CPU time, %d bytes take %v (x%.1f for 4x the input; confirmed 3 times)",
 			name, chunk, n1, t1, len2, t2, float64(t2)/float64(t1+1)),
 		Scenario: &Scenario{Format: string(f), Doc: fmt.Sprintf("(%s, %d and %d bytes)", name, n1, n2), Entry: entry, BufSize: chunk}}
+}
+
+var lowerStackOnce sync.Once
+
+// stackBomb: 2^20 or 2^21 levels of nesting (1-8 MiB of input), closed all at
+// once or not at all. A parser whose work per closing level is a function call
+// deeper dies of a fatal, unrecoverable stack overflow once the nesting is deep
+// enough; with Go's default limit (1 GB) that takes inputs of tens of MiB. The
+// worker lowers the limit to 64 MiB (debug.SetMaxStack) so that the same
+// recursion shows with 1/16 of the input: a parser with bounded stack use per
+// input byte never notices either limit.
+func stackBomb(c *simkit.Choices, x *simkit.Ctx, cd *common.Codec, f model.Format) *simkit.Violation {
+	st := x.Stats
+	lowerStackOnce.Do(func() { debug.SetMaxStack(64 << 20) })
+	n := []int{1 << 20, 1 << 21}[c.N(2)]
+	data := common.NestBombN(c, f, n)
+	sc := &Scenario{Format: string(f), Doc: fmt.Sprintf("(nest bomb: %d levels, %d bytes, starts %x, ends %x)", n, len(data), data[:8], data[len(data)-4:]),
+		Faults: []common.Fault{{Kind: "nest-bomb", Arg: n}}}
+	sc.Entry = []string{"parse", "write", "decoder-bytes"}[c.N(3)]
+	if sc.Entry == "write" {
+		for p := 1 << 16; p < len(data); p += 1 << 16 {
+			sc.Cuts = append(sc.Cuts, p)
+		}
+	}
+	simkit.SetCurrent(sc)
+	x.Alive()
+	st.Eval(1)
+	st.Fault("nest-bomb-million-levels")
+	st.Distinct(simkit.NewDigest().Str("stackbomb" + string(f) + sc.Entry).Int(n).Bytes(data[:8]).Int(len(data)).Sum())
+	r := exec(cd, sc, data, x)
+	x.Alive()
+	return judge(f, sc, data, r, cd, x)
+}
+
+// memScaling: one monotonous token of 4 MiB and of 8 MiB, delivered in 32 KiB
+// pieces, must make the parser allocate about twice as much for twice the
+// input. A growth policy that stops doubling (fixed increments beyond some
+// size) is linear up to that size and quadratic after it, which only shows
+// out here. Allocation (exact, from the runtime's counters), not time.
+func memScaling(c *simkit.Choices, x *simkit.Ctx, cd *common.Codec, f model.Format) *simkit.Violation {
+	st := x.Stats
+	pat := c.N(8)
+	entry := []string{"write", "decoder-reader"}[c.N(2)]
+	chunk := []int{32 << 10, 64 << 10, 4096, 100000}[c.N(4)]
+	measure := func(n int) (uint64, string, int) {
+		data, name := scalingPattern(simkit.ReplayChoices([]uint64{uint64(pat)}), f, n)
+		sc := &Scenario{Format: string(f), Doc: fmt.Sprintf("(%s, %d bytes)", name, len(data)), Entry: entry, BufSize: chunk, Reads: []int{chunk}}
+		var cuts []int
+		for p := chunk; p < len(data); p += chunk {
+			cuts = append(cuts, p)
+		}
+		simkit.SetCurrent(sc)
+		x.Alive()
+		t := simkit.NewTap(nil)
+		t.NoRecord = true
+		a0 := exactAlloc()
+		simkit.Guard(func() {
+			if entry == "write" {
+				simkit.Feed(cd.NewParser(t), data, cuts, false, nil)
+			} else {
+				dec := cd.NewDecoder(&simkit.Reader{Data: data, Sizes: []int{chunk}}, chunk, t)
+				for i := 0; i < 4; i++ {
+					if dec.Next() != nil {
+						break
+					}
+				}
+			}
+		})
+		a := exactAlloc() - a0
+		x.Alive()
+		return a, name, len(data)
+	}
+	const n1, n2 = 4 << 20, 8 << 20
+	st.Eval(2)
+	st.Fault("mib-sized-token-in-chunks")
+	a1, name, _ := measure(n1)
+	a2, _, len2 := measure(n2)
+	st.Distinct(simkit.NewDigest().Str("memscaling" + string(f) + name + entry).Int(chunk).Sum())
+	// (the scratch buffer of the simulated sender is part of both measurements: one chunk)
+	if a2 > 16*uint64(len2) && a2 > 3*a1 {
+		return &simkit.Violation{Kind: "superlinear-memory", Site: string(f) + "/" + entry + "/" + name,
+			Detail: fmt.Sprintf("%s in %d-byte pieces: %d bytes of input make the parser allocate %d bytes, %d bytes of input %d bytes (x%.1f for twice the input, %.0f times the input)",
+				name, chunk, n1, a1, len2, a2, float64(a2)/float64(a1+1), float64(a2)/float64(len2)),
+			Scenario: &Scenario{Format: string(f), Doc: fmt.Sprintf("(%s, %d and %d bytes)", name, n1, n2), Entry: entry, BufSize: chunk}}
+	}
+	st.Probe("memory-scaling-linear")
+	return nil
 }
 
 // truncation: every strict prefix of a valid stream that ends inside a value
